@@ -5,6 +5,13 @@ ALLOWED_PARAM_KEYS = ("typ", "doc", "default", "x_typ")
 ALLOWED_IR_KEYS = ("name", "type", "_internal", "doc", "params", "returns")
 
 
+def _some_line_ends_with_colon(text):
+    for line in text.splitlines():  # str.splitlines also breaks at \x0b \x0c \x1c-\x1e \x85 \u2028 \u2029
+        if line.rstrip().endswith(":"):
+            return True
+    return False
+
+
 def _entry_wf(where, entry, check_typ_parses=True, source_text=None):
     if not isinstance(entry, dict):
         return "%s: entry is not a mapping" % where
@@ -25,7 +32,7 @@ def _entry_wf(where, entry, check_typ_parses=True, source_text=None):
             verbatim = (source_text is not None and known_active("F17") and len(t) > 0 and "\n\n" not in t
                         and t.strip() in source_text.replace("```", ""))
             if (not verbatim and source_text is not None and known_active("F17") and t.strip() == ""
-                    and (":\n" in source_text or ": \n" in source_text or source_text.rstrip(" ").endswith(":"))):
+                    and _some_line_ends_with_colon(source_text)):
                 verbatim = True  # F17, empty variant: a field whose type text is empty ('a :' + newline) yields typ ''
 
             # known finding F17: type text copied verbatim from one line of the docstring is never validated
